@@ -82,7 +82,8 @@ def argn_family(rng, n):
     import ast
     import re
 
-    out = [ARGN_PROBE]
+    # ... and a number far past anything a counter reaches (wave-11 review of e08ed1d: int() of 4400 digits raised)
+    out = [ARGN_PROBE, f"Select(Select(ds, lambda e: e.met + arg_{'7' * 4400}), lambda x: x + 1)"]
     tries = 0
     while len(out) < n and tries < 20 * n:
         tries += 1
